@@ -1410,7 +1410,10 @@ func mapValueOf(m, key reflect.Value) reflect.Value {
 		if !k.CanFloat() || k.Float() == k.Float() {
 			continue
 		}
-		if text := stableString(iter.Value().Interface()); !best.IsValid() || text < bestText {
+		// (the map may be an unexported field: its values are printed, not taken out)
+		var sb strings.Builder
+		writeStable(&sb, iter.Value(), 0, nil)
+		if text := sb.String(); !best.IsValid() || text < bestText {
 			best, bestText = iter.Value(), text
 		}
 	}
